@@ -31,8 +31,8 @@ def plan(tier, seed):
 
 
 def required(tier):
-    return {"linearity": 60, "theta-scaling": 60, "refsize-integrator": 60, "refsize-phi_1D": 40, "refsize-program": 8,
-            "linearity-program": 8}
+    return {"linearity": 25, "theta-scaling": 60, "refsize-integrator": 30, "refsize-phi_1D": 25, "refsize-program": 5,
+            "linearity-program": 5}
 
 
 def draw(rng, nd, frozen=None):
